@@ -107,7 +107,7 @@ fn sample_json(spec: &RunSpec, r: &RunResult, seed: u64) -> serde_json::Value {
         "threads": spec.threads.iter().map(|t| serde_json::json!({
             "crash_on_fault": t.crash_on_fault,
             "ops": t.ops.iter().map(|o| {
-                let q = match &o.call { Call::Array{q}|Call::ArrayInto{q,..} => format!(" q{:?}{:?}={:?}", q.ty, q.shape, q.xs.iter().map(|f| f.0).collect::<Vec<_>>()), Call::Scalar{x,y}|Call::Interp{x,y}|Call::InterpInto{x,y,..}|Call::IndexLeftOf{x,y}|Call::InRange{x,y} => format!(" x={:?} y={:?}", x.0, y.0), Call::IndexPoint{i,j} => format!(" i={i} j={j}"), Call::Cow => String::new() };
+                let q = match &o.call { Call::Array{q}|Call::ArrayInto{q,..} => format!(" q{:?}{:?}={:?}", q.ty, q.shape, q.xs.iter().map(|f| f.0).collect::<Vec<_>>()), Call::Scalar{x,y}|Call::Interp{x,y}|Call::InterpInto{x,y,..}|Call::IndexLeftOf{x,y}|Call::InRange{x,y} => format!(" x={:?} y={:?}", x.0, y.0), Call::IndexPoint{i,j} => format!(" i={i} j={j}"), Call::Cow => String::new(), Call::Sibling{strat,x,y} => format!(" {:?} x={:?} y={:?}", strat, x.0, y.0) };
                 let b = match &o.call { Call::InterpInto{buf,..}|Call::ArrayInto{buf,..} => format!(" buf{:?}/{:?}{}", buf.shape, buf.lay, if buf.exact {""} else {" (wrong)"}), _ => String::new() };
                 format!("s{}.{}{}{}{}", o.slot, o.call.name(), q, b, if o.plan.is_empty() { String::new() } else { format!(" plan={:?}", o.plan) })
             }).collect::<Vec<_>>() })).collect::<Vec<_>>(),
